@@ -608,6 +608,8 @@ func runLint(which string) {
 		}
 	case "L19":
 		sites, hits = montgomeryLimbReads(fns)
+	case "GLOBALS":
+		sites, hits = globalWrites(p, NewEffects(p), fns, os.Getenv("GCV_INIT") != "")
 	case "L17":
 		eff := NewEffects(p)
 		var inits []onceInit
@@ -924,4 +926,247 @@ func onlyZeroTested(v ssa.Value, depth int) bool {
 		}
 	}
 	return true
+}
+
+// ---------- global-state discipline (C18 b) ----------
+
+// globalWrites: instructions of library functions (outside init and outside functions run under
+// sync.Once) that store into a package-level variable, or pass its address to a callee that
+// writes through it.
+func globalWrites(p *Program, eff *Effects, fns []*ssa.Function, includeInit bool) (sites int, hits []Finding) {
+	// functions run under sync.Once / OnceValue / package init
+	under := map[*ssa.Function]bool{}
+	cg := p.CallGraph()
+	var mark func(f *ssa.Function)
+	mark = func(f *ssa.Function) {
+		if f == nil || under[f] {
+			return
+		}
+		under[f] = true
+		if n := cg.Nodes[f]; n != nil {
+			for _, e := range n.Out {
+				if strings.HasPrefix(fnPkgPath(e.Callee.Func), modPath) {
+					mark(e.Callee.Func)
+				}
+			}
+		}
+		for _, af := range f.AnonFuncs {
+			mark(af)
+		}
+	}
+	for _, fn := range p.RepoFuncs() {
+		if fn.Parent() == nil && (fn.Name() == "init" || strings.HasPrefix(fn.Name(), "init#")) {
+			mark(fn)
+		}
+		for _, b := range fn.Blocks {
+			for _, in := range b.Instrs {
+				call, ok := in.(ssa.CallInstruction)
+				if !ok {
+					continue
+				}
+				cl := calleeOf(call.Common())
+				if cl.Pkg == "sync" && (cl.Name == "Do" || strings.HasPrefix(cl.Name, "Once")) {
+					for _, a := range call.Common().Args {
+						switch f := a.(type) {
+						case *ssa.Function:
+							mark(f)
+						case *ssa.MakeClosure:
+							mark(f.Fn.(*ssa.Function))
+						}
+					}
+				}
+			}
+		}
+	}
+	for _, fn := range fns {
+		root := fn
+		for root.Parent() != nil {
+			root = root.Parent()
+		}
+		if !includeInit && (under[fn] || under[root]) {
+			continue
+		}
+		for _, b := range fn.Blocks {
+			for _, in := range b.Instrs {
+				for _, addr := range writtenAddrs(eff, in) {
+					for _, r := range addrRoots(addr) {
+						if r.Kind != "global" {
+							continue
+						}
+						sites++
+						t := r.Glob.Type().(*types.Pointer).Elem().String()
+						if strings.HasPrefix(t, "sync.") || strings.HasPrefix(t, "sync/atomic.") || strings.Contains(t, "atomic.") {
+							continue
+						}
+						hits = append(hits, Finding{fn, instrPos(in), "global-write(" + r.Glob.Name() + ")",
+							fmt.Sprintf("%s writes the package-level variable %s outside package initialisation and outside a sync.Once: concurrent callers race on it and later calls observe state left by earlier ones", funcKey(fn), r.Glob.Name())})
+					}
+				}
+			}
+		}
+	}
+	return
+}
+
+// ---------- sync.Pool discipline ----------
+
+// pooledObjectsReadBeforeDefined: for every (*sync.Pool).Get in the library, the object obtained
+// must be completely (re)defined before anything reads it, in the function that obtains it:
+// whole store, clear, provably full copy, or a Reset/SetZero-like method. Returning the object
+// hands the obligation to the caller (listed exception: the polynomial scratch pool, whose
+// contract is "unspecified contents").
+func pooledObjectsReadBeforeDefined(p *Program, eff *Effects, fns []*ssa.Function) (sites int, hits []Finding) {
+	for _, fn := range fns {
+		for _, b := range fn.Blocks {
+			for _, in := range b.Instrs {
+				call, ok := in.(*ssa.Call)
+				if !ok {
+					continue
+				}
+				cl := calleeOf(&call.Call)
+				if cl.Pkg != "sync" || cl.Recv != "Pool" || cl.Name != "Get" {
+					continue
+				}
+				sites++
+				var defs, reads []ssa.Instruction
+				viaPhi := map[ssa.Instruction][]*ssa.BasicBlock{}
+				var entry []*ssa.BasicBlock
+				escaped := false
+				seen := map[ssa.Value]bool{}
+				var walk func(v ssa.Value)
+				walk = func(v ssa.Value) {
+					if seen[v] || v.Referrers() == nil {
+						return
+					}
+					seen[v] = true
+					nReads := len(reads)
+					defer func() {
+						if entry != nil {
+							for _, rd := range reads[nReads:] {
+								if _, ok := viaPhi[rd]; !ok {
+									viaPhi[rd] = entry
+								}
+							}
+						}
+					}()
+					for _, r := range *v.Referrers() {
+						switch x := r.(type) {
+						case *ssa.TypeAssert:
+							walk(x)
+						case *ssa.Extract:
+							walk(x)
+						case *ssa.Phi:
+							saved := entry
+							if entry == nil {
+								for i, e := range x.Edges {
+									if e == v {
+										entry = append(entry, x.Block().Preds[i])
+									}
+								}
+							}
+							walk(x)
+							entry = saved
+						case *ssa.Slice, *ssa.ChangeType, *ssa.Convert:
+							walk(r.(ssa.Value))
+						case *ssa.IndexAddr:
+							// element access: loads read, stores write one element (not a full definition)
+							for _, rr := range *x.Referrers() {
+								if u, ok := rr.(*ssa.UnOp); ok && u.Op == token.MUL {
+									reads = append(reads, rr)
+								}
+								if c2, ok := rr.(ssa.CallInstruction); ok {
+									reads = append(reads, c2)
+								}
+							}
+						case *ssa.FieldAddr:
+							for _, rr := range *x.Referrers() {
+								if u, ok := rr.(*ssa.UnOp); ok && u.Op == token.MUL {
+									reads = append(reads, rr)
+								}
+							}
+						case *ssa.Store:
+							if x.Addr == v {
+								defs = append(defs, r)
+							}
+						case *ssa.UnOp:
+							if x.Op == token.MUL {
+								reads = append(reads, r)
+							}
+						case *ssa.Return:
+							escaped = true
+						case ssa.CallInstruction:
+							cc := x.Common()
+							c2 := calleeOf(cc)
+							switch {
+							case c2.Built && c2.Name == "clear":
+								defs = append(defs, r)
+							case c2.Built && c2.Name == "copy" && len(cc.Args) == 2 && cc.Args[0] == v:
+								if fullArrayCopy(cc.Args[0], cc.Args[1]) != nil {
+									defs = append(defs, r)
+								}
+							case c2.Built:
+							case c2.Pkg == "sync" && c2.Name == "Put":
+							case len(cc.Args) > 0 && cc.Args[0] == v && (c2.Name == "Reset" || c2.Name == "SetZero" || c2.Name == "Init"):
+								defs = append(defs, r)
+							case c2.Pkg == "math/big" && !cc.IsInvoke() && len(cc.Args) > 0 && cc.Args[0] == v && !bigGetter[c2.Name]:
+								// receiver of a defining math/big operation (unless also an operand)
+								isOperand := false
+								for _, a := range cc.Args[1:] {
+									if a == v {
+										isOperand = true
+									}
+								}
+								if isOperand {
+									reads = append(reads, r)
+								} else {
+									defs = append(defs, r)
+									if val, ok := r.(ssa.Value); ok {
+										walk(val) // fluent API returns the receiver
+									}
+								}
+							default:
+								reads = append(reads, r)
+							}
+						}
+					}
+				}
+				walk(call)
+				if escaped && len(reads) == 0 {
+					// wrappers whose callers are checked: field/pool (C08.pool) and the polynomial scratch pool (documented: unspecified contents)
+					if !strings.Contains(funcKey(fn), "polynomial.(*sizedPool).get") && !strings.HasPrefix(funcKey(fn), "field/pool.") {
+						hits = append(hits, Finding{fn, instrPos(in), "pooled-object-returned", funcKey(fn) + " returns an object taken from a sync.Pool without redefining it: its previous contents reach the caller"})
+					}
+					continue
+				}
+				for _, rd := range reads {
+					dom := false
+					for _, d := range defs {
+						if instrDominates(d, rd) {
+							dom = true
+						}
+					}
+					if !dom && len(viaPhi[rd]) > 0 {
+						all := true
+						for _, eb := range viaPhi[rd] {
+							found := false
+							for _, d := range defs {
+								if d.Block() == eb || d.Block().Dominates(eb) {
+									found = true
+								}
+							}
+							if !found {
+								all = false
+							}
+						}
+						dom = all
+					}
+					if !dom {
+						hits = append(hits, Finding{fn, instrPos(rd), "pooled-object-read-before-defined", funcKey(fn) + " reads an object obtained from a sync.Pool before completely redefining it: data left by a previous user of the pool (another call, another goroutine) flows into this computation"})
+						break
+					}
+				}
+			}
+		}
+	}
+	return
 }
